@@ -113,6 +113,8 @@ def read_ww3_station(filename_or_fileglob):
     spec_arr = np.array(spectra).reshape(
         len(times), len(lats), len(lons), len(dirs), len(freqs)
     )
+    # np.unique sorted the time labels, keep the records with their own time
+    spec_arr = spec_arr[np.argsort(date, kind="stable")]
 
     # Convert from m2/rad to m2/deg
     spec_arr *= D2R
